@@ -65,7 +65,7 @@ pub fn run(_ctx: &Ctx) -> Report {
     let mut rep = Report::new(
         "C12",
         "exploration",
-        "all (log_trace_domain_size t, log_n_cosets c) with t + c in 0..=192, enumerated completely; a pair is \
+        "all (log_trace_domain_size t, log_n_cosets c) with t + c in 0..=192, enumerated completely (in parallel, then sequentially in three orders so that a constructor with memory is seen); a pair is \
          non-trivial when t + c >= 1 (the order conditions are not vacuous); distinct by (t, c)",
     );
     rep.trust("num-bigint modpow (reference arithmetic)");
@@ -96,13 +96,59 @@ pub fn run(_ctx: &Ctx) -> Report {
             );
         }
     }
-    rep.bound_completed = "complete: 18721 pairs".into();
+    // ---- history: the constructor must be a function of its arguments only.  Three sequential passes, each on
+    // its own thread (a thread-local or global cache would be warm): along the anti-diagonals (t + c constant for
+    // consecutive calls), in reverse order, and with a call for another shape (18, 4) before every call.
+    let orders: Vec<(&str, Vec<(u32, u32)>)> = vec![
+        ("anti-diagonal", {
+            let mut v = Vec::new();
+            for n in 0..=192u32 {
+                for t in 0..=n {
+                    v.push((t, n - t));
+                }
+            }
+            v
+        }),
+        ("reverse", pairs.iter().rev().cloned().collect()),
+        ("primed-with-(18,4)", pairs.clone()),
+    ];
+    let seq: Vec<(&str, Vec<((u32, u32), (u32, u32), String)>)> = orders
+        .par_iter()
+        .map(|(name, order)| {
+            let mut bad = Vec::new();
+            let mut prev = (u32::MAX, u32::MAX);
+            for &(t, c) in order {
+                if *name == "primed-with-(18,4)" {
+                    let _ = panics::catch(|| StarkDomains::new(fu(18), fu(4)));
+                    prev = (18, 4);
+                }
+                if let (_, Some(b)) = check_pair(t, c) {
+                    bad.push(((t, c), prev, b));
+                }
+                prev = (t, c);
+            }
+            (*name, bad)
+        })
+        .collect();
+    for (name, bad) in seq {
+        rep.evals(&format!("history:{}:{}", name, if bad.is_empty() { "holds" } else { "violated" }), 18721);
+        for ((t, c), prev, b) in bad.into_iter().take(20) {
+            rep.violation(&format!("domains-history:{}(t={},c={})", name, t, c),
+                &format!("StarkDomains::new({}, {}) called after new({}, {}): {}", t, c, prev.0, prev.1, b),
+                json!({"kind": "domain-seq", "t": t, "c": c, "prev_t": prev.0, "prev_c": prev.1}));
+        }
+    }
+    rep.bound_completed = "complete: 18721 pairs, in parallel and in three sequential orders".into();
     rep
 }
 
 pub fn replay(_ctx: &Ctx, case: &Value) -> super::ReplayResult {
     let t = case["t"].as_u64().ok_or("replay: missing t")? as u32;
     let c = case["c"].as_u64().ok_or("replay: missing c")? as u32;
+    if case["kind"] == "domain-seq" {
+        let (pt, pc) = (case["prev_t"].as_u64().unwrap_or(0), case["prev_c"].as_u64().unwrap_or(0));
+        let _ = panics::catch(|| StarkDomains::new(fu(pt), fu(pc)));
+    }
     let (class, bad) = check_pair(t, c);
     Ok((bad.is_some(), format!("t={} c={} -> {} {}", t, c, class, bad.unwrap_or_default())))
 }
